@@ -223,16 +223,19 @@ pub fn install_panic_hook() {
 /// Normalises a panic location: strips the registry prefix and, for files in
 /// the code under test, keeps the path relative to the repository root.
 fn norm_loc(loc: &str) -> String {
-    let mut l = loc.to_string();
-    if let Some(i) = l.find("/registry/src/") {
-        if let Some(j) = l[i + 14..].find('/') {
-            l = format!("dep:{}", &l[i + 14 + j + 1..]);
+    if let Some(r) = loc.strip_prefix("/repo/") {
+        return r.to_string();
+    }
+    if let Some(i) = loc.find("/registry/src/") {
+        if let Some(j) = loc[i + 14..].find('/') {
+            return format!("dep:{}", &loc[i + 14 + j + 1..]);
         }
     }
-    if let Some(r) = l.strip_prefix("/repo/") {
-        l = r.to_string();
+    if loc.starts_with("/rustc/") || loc.starts_with("/root/.rustup/") {
+        return format!("std:{}", loc.rsplit('/').next().unwrap_or(loc));
     }
-    l
+    // anything else is the harness itself
+    format!("harness:{loc}")
 }
 
 /// Runs `f`, converting a panic into `Err((location, message))`.
@@ -254,6 +257,18 @@ pub fn catch<R>(f: impl FnOnce() -> R) -> Result<R, (String, String)> {
 /// robustness?  No: file:line of the code under test is the root cause key.
 pub fn panic_sig(loc: &str) -> String {
     format!("panic:{loc}")
+}
+
+/// A panic that escaped a check closure: in the code under test (or one of its
+/// dependencies) it is a violation; in the harness itself it is a harness bug,
+/// reported loudly as inconclusive, never as a violation.
+pub fn panic_verdict(loc: &str, msg: &str) -> Verdict {
+    if loc.starts_with("harness:") {
+        eprintln!("HARNESS PANIC at {loc}: {msg}");
+        Verdict::Inconclusive(format!("harness panic at {loc}"))
+    } else {
+        Verdict::viol(panic_sig(loc), format!("panic: {msg}"))
+    }
 }
 
 fn truncate_value(v: &Value, depth: usize) -> Value {
@@ -436,7 +451,7 @@ impl LaneCtx {
             }
             let verdict = match catch(|| (f.borrow_mut())(&case)) {
                 Ok(v) => v,
-                Err((loc, msg)) => Verdict::viol(panic_sig(&loc), format!("panic: {msg}")),
+                Err((loc, msg)) => panic_verdict(&loc, &msg),
             };
             let mut me = this.borrow_mut();
             if *failed.borrow() {
@@ -513,7 +528,7 @@ impl LaneCtx {
             }
             let verdict = match catch(|| f(&case)) {
                 Ok(v) => v,
-                Err((loc, msg)) => Verdict::viol(panic_sig(&loc), format!("panic: {msg}")),
+                Err((loc, msg)) => panic_verdict(&loc, &msg),
             };
             let cj = || serde_json::to_value(&case).unwrap_or(Value::Null);
             if let Err((sig, detail)) = self.account(name, &cj, verdict) {
@@ -560,7 +575,7 @@ pub fn replay_case<C: DeserializeOwned>(case: &Value, f: impl FnOnce(&C) -> Verd
     };
     match catch(|| f(&c)) {
         Ok(v) => v,
-        Err((loc, msg)) => Verdict::viol(panic_sig(&loc), format!("panic: {msg}")),
+        Err((loc, msg)) => panic_verdict(&loc, &msg),
     }
 }
 
@@ -705,4 +720,48 @@ pub fn write_evidence(
     let _ = std::fs::create_dir_all(&dir);
     let p = dir.join(format!("{prop}.json"));
     std::fs::write(&p, serde_json::to_vec_pretty(&ev).unwrap()).expect("write evidence");
+}
+
+// ---------------------------------------------------------------------------
+// Watchdog for calls that may loop without bound
+// ---------------------------------------------------------------------------
+
+fn cpu_seconds() -> f64 {
+    unsafe {
+        let mut ru: libc::rusage = std::mem::zeroed();
+        libc::getrusage(libc::RUSAGE_SELF, &mut ru);
+        ru.ru_utime.tv_sec as f64 + ru.ru_utime.tv_usec as f64 / 1e6 + ru.ru_stime.tv_sec as f64 + ru.ru_stime.tv_usec as f64 / 1e6
+    }
+}
+
+pub const EXIT_HANG: i32 = 42;
+pub const EXIT_BLOCKED: i32 = 43;
+
+/// Runs `f` under a watchdog.  If `f` has not returned after `secs` seconds of
+/// wall time the process exits: with code 42 when it burned CPU for most of
+/// that time (a loop without bound), with 43 when it was merely blocked.  The
+/// parent attributes the exit to the case logged in `current_lane*.json`.
+pub fn with_watchdog<R>(secs: f64, f: impl FnOnce() -> R) -> R {
+    use std::sync::atomic::{AtomicBool, Ordering};
+    use std::sync::Arc;
+    let done = Arc::new(AtomicBool::new(false));
+    let d2 = done.clone();
+    let cpu0 = cpu_seconds();
+    let h = std::thread::spawn(move || {
+        let t0 = std::time::Instant::now();
+        while !d2.load(Ordering::SeqCst) {
+            std::thread::sleep(std::time::Duration::from_millis(20));
+            let el = t0.elapsed().as_secs_f64();
+            if el > secs {
+                let cpu = cpu_seconds() - cpu0;
+                let code = if cpu > 0.7 * el { EXIT_HANG } else { EXIT_BLOCKED };
+                eprintln!("watchdog: call exceeded {secs}s (cpu {cpu:.1}s) -> exit {code}");
+                unsafe { libc::_exit(code) };
+            }
+        }
+    });
+    let r = f();
+    done.store(true, Ordering::SeqCst);
+    let _ = h.join();
+    r
 }
